@@ -30,13 +30,17 @@ TInit == /\ tid \in 1..N /\ l = 1 /\ lay = Traces[tid].lay
          /\ bits = Fresh(Layouts[Traces[tid].lay]) /\ nrm = (Computed(Layouts[Traces[tid].lay]) = {}) /\ gen = 1
          /\ cfg = None /\ bin = None /\ act = [a |-> "NewObject"]
          /\ TLCSet(tid, 1) /\ TLCSet(N + tid, "none") /\ TLCSet(2 * N + tid, 0)
-\* data consistency of the layout itself (declared group widths against the register file)
+\* data consistency of the layout itself: every clause is evaluated (a failing one is printed, the others are still checked)
+Soft(name, ok, r) == IF ok THEN TRUE ELSE PrintT(<<"LAY", Traces[tid].id, name, r>>)
+BadGroups == {g \in Groups(L) : ~(Reg(L, g).nmiss = 0 /\ (Reg(L, g).declw = 0 \/ Reg(L, g).declw = Reg(L, g).subsw))}
 TLayout == /\ Is("Layout") /\ UNCHANGED <<lay, bits, cfg, bin, nrm, gen, act>>
-           /\ (LET bad == {g \in Groups(L) : ~(Reg(L, g).nmiss = 0 /\ (Reg(L, g).declw = 0 \/ Reg(L, g).declw = Reg(L, g).subsw))}
-               IN IF GroupsConsistent(L) THEN TRUE ELSE Fail("GroupsConsistent", CHOOSE g \in bad : \A x \in bad : g <= x))
-           /\ (IF NoOverlap(L) THEN TRUE ELSE Fail("NoOverlap", L.ovl[1]))
-           /\ Check("Resolvable", Resolvable(L))
-           /\ (IF EnumNamesUnique(L) THEN TRUE ELSE Fail("EnumNamesUnique", L.dupenum[1])) /\ Adv
+           /\ Soft("GroupsConsistent", GroupsConsistent(L), IF BadGroups = {} THEN 0 ELSE CHOOSE g \in BadGroups : \A x \in BadGroups : g <= x)
+           /\ Soft("NoOverlap", NoOverlap(L), IF L.ovl = <<>> THEN 0 ELSE L.ovl[1])
+           /\ Soft("Resolvable", Resolvable(L), 0)
+           /\ Soft("EnumNamesUnique", EnumNamesUnique(L), IF L.dupenum = <<>> THEN 0 ELSE L.dupenum[1])
+           /\ Soft("FieldNamesUnique", FieldNamesUnique(L), IF L.dupfield = <<>> THEN 0 ELSE L.dupfield[1])
+           /\ Soft("FieldsCover", FieldsCover(L), IF L.uncovered = <<>> THEN 0 ELSE L.uncovered[1])
+           /\ Adv
 TNewObject == /\ Is("NewObject")
               /\ IF l = 1 THEN UNCHANGED <<lay, bits, cfg, bin, nrm, gen, act>> ELSE NewObject
               /\ Check("Constructs", E.ok) /\ Check("Structure", E.struct)
